@@ -16,6 +16,7 @@ import (
 	"os"
 	"strconv"
 	"strings"
+	"sync"
 	"time"
 
 	"github.com/piotrnar/gocoin/lib/secp256k1"
@@ -64,12 +65,54 @@ func mergeOps(run *vlib.Run, prefix string, ops map[string]int64) {
 	}
 }
 
+var (
+	limbEdgeOnce sync.Once
+	limbEdgePts  []refec.Point
+)
+
+// limbEdgePoints: small multiples of G one of whose coordinates has a 26-bit limb (the 32-bit field representation)
+// within ~1000 of the top of its range or equal to zero - values at which a limb-wise subtraction without enough head
+// room borrows. Found by scanning k*G, k = 1..45000 (a given limb is extreme for about one point in 65000).
+func limbEdgePoints() []refec.Point {
+	limbEdgeOnce.Do(func() {
+		mask := big.NewInt(1<<26 - 1)
+		g := refec.G()
+		cur := refec.G()
+		tmp := new(big.Int)
+		perLimb := map[int]int{}
+		for k := 1; k <= 45000 && len(limbEdgePts) < 14; k++ {
+			for ci, c := range []*big.Int{cur.X, cur.Y} {
+				hit := false
+				for l := 0; l < 10 && !hit; l++ {
+					v := tmp.And(tmp.Rsh(c, uint(26*l)), mask).Int64()
+					top := int64(1<<26 - 1)
+					if l == 9 {
+						top = 1<<22 - 1
+					}
+					if (v > top-1000 || v == 0) && perLimb[ci*10+l] < 2 {
+						perLimb[ci*10+l]++
+						hit = true
+					}
+				}
+				if hit {
+					limbEdgePts = append(limbEdgePts, refec.NewPoint(cur.X, cur.Y))
+					break
+				}
+			}
+			cur = refec.Add(cur, g)
+		}
+	})
+	return limbEdgePts
+}
+
 func pointPool(r *vlib.Rand, n int) []refec.Point {
 	pool := []refec.Point{refec.G(), refec.G().Neg(), refec.Double(refec.G())}
 	edge := []*big.Int{new(big.Int).Sub(N, big.NewInt(2)), new(big.Int).Rsh(N, 1), new(big.Int).Add(new(big.Int).Rsh(N, 1), big.NewInt(1)), big.NewInt(3), lambda}
 	for _, k := range edge {
 		pool = append(pool, refec.ScalarBaseMult(k))
 	}
+	pool = append(pool, limbEdgePoints()...)
+	n += len(limbEdgePoints())
 	for len(pool) < n {
 		k := new(big.Int).SetBytes(r.Bytes(32))
 		pt := refec.ScalarBaseMult(k)
